@@ -8,6 +8,7 @@ import (
 	"context"
 	"fmt"
 	"strconv"
+	"strings"
 	"sync"
 	"time"
 
@@ -33,7 +34,8 @@ type p2req struct {
 	Fail     bool   `json:"fail"`
 	PanicM   bool   `json:"panic_in_manager"`
 	DelayUs  int    `json:"delay_us"`
-	Panicked string `json:"panicked,omitempty"` // observed
+	ErrBytes int    `json:"err_bytes,omitempty"` // the manager's error text has this many UTF-8 bytes (CJK)
+	Panicked string `json:"panicked,omitempty"`  // observed
 }
 
 type p2consult struct {
@@ -94,6 +96,9 @@ func (s *scriptedRM) call(method string, res rm.BranchResource) (branch.BranchSt
 	}
 	st := branch.BranchStatus(stFor(sc.Status, int(uint8(s.bt)), sc.Fail, sc.Raw))
 	if sc.Fail {
+		if sc.ErrBytes > 0 {
+			return st, fmt.Errorf("scripted manager failure: %s", strings.Repeat("\u5931\u8d25\u4e86", sc.ErrBytes/9))
+		}
 		return st, fmt.Errorf("scripted manager failure")
 	}
 	return st, nil
@@ -281,9 +286,9 @@ func runStream(r *runner, cs *p2case, phases [][]int, workers int, bound time.Du
 	for _, rec := range r.w.all {
 		switch b := rec.Body.(type) {
 		case message.BranchCommitResponse:
-			cs.Resps = append(cs.Resps, p2resp{rec.ID, "BranchCommitResponse", b.Xid, b.BranchId, int(b.BranchStatus), int(b.ResultCode)})
+			cs.Resps = append(cs.Resps, p2resp{rec.ID, "BranchCommitResponse", shortXid(b.Xid), b.BranchId, int(b.BranchStatus), int(b.ResultCode)})
 		case message.BranchRollbackResponse:
-			cs.Resps = append(cs.Resps, p2resp{rec.ID, "BranchRollbackResponse", b.Xid, b.BranchId, int(b.BranchStatus), int(b.ResultCode)})
+			cs.Resps = append(cs.Resps, p2resp{rec.ID, "BranchRollbackResponse", shortXid(b.Xid), b.BranchId, int(b.BranchStatus), int(b.ResultCode)})
 		default:
 			cs.Oracle = append(cs.Oracle, fmt.Sprintf("unexpected frame written: %T", rec.Body))
 		}
@@ -299,6 +304,14 @@ func runStream(r *runner, cs *p2case, phases [][]int, workers int, bound time.Du
 	}
 	cs.Secs = time.Since(t0).Seconds()
 	return cs
+}
+
+// an xid decoded from the middle of some other text can be very long: keep its head and its size
+func shortXid(x string) string {
+	if len(x) <= 96 {
+		return x
+	}
+	return fmt.Sprintf("%q...(%d bytes)", x[:48], len(x))
 }
 
 func allIdx(n int) []int {
@@ -401,6 +414,39 @@ func attritionCase(r *runner, rng *hutil.Rng, caseNo, nfail, nok int) *p2case {
 		cs.Reqs = append(cs.Reqs, q)
 	}
 	return runStream(r, cs, [][]int{ph1, ph2}, 0, 5*time.Second)
+}
+
+// wireCase: a mixed concurrent stream whose replies take the way of the real frame writer and are
+// decoded on the coordinator's side of the socket (fakeSession.wire); some managers fail with a
+// non-Unknown status and a multi-byte error text of 40 000 - 130 000 bytes
+func wireCase(r *runner, rng *hutil.Rng, caseNo, n int) *p2case {
+	cs := &p2case{Kind: "wire"}
+	cs.Reqs = genP2(rng, caseNo, n, false)
+	for i := range cs.Reqs {
+		q := &cs.Reqs[i]
+		q.DelayUs = 0
+		if rng.Chance(1, 2) {
+			q.MsgID = int32(rng.Intn(5)) // several frame sizes and socket delays in flight together
+		}
+		if q.Fail && rng.Chance(1, 3) {
+			q.ErrBytes = []int{40000, 66000, 70002, 131000}[rng.Intn(4)]
+			for stFor(q.Status, q.BType, true, false) == 0 {
+				q.Status++
+			}
+			q.Expect = stFor(q.Status, q.BType, true, false)
+		}
+	}
+	r.sess.wire.Store(true)
+	r.w.mu.Lock()
+	r.w.wireErrs = nil
+	r.w.mu.Unlock()
+	cs = runStream(r, cs, [][]int{allIdx(len(cs.Reqs))}, 0, 10*time.Second)
+	r.sess.wire.Store(false)
+	r.w.mu.Lock()
+	cs.Oracle = append(cs.Oracle, r.w.wireErrs...)
+	r.w.wireErrs = nil
+	r.w.mu.Unlock()
+	return cs
 }
 
 // lookupHammer: the routing step itself (rm cache: branch type -> manager) under concurrent
@@ -587,6 +633,9 @@ func Run15(args map[string]string) {
 		return cs
 	}, func(cs *p2case) *p2case { return runStream(r, cs, [][]int{allIdx(len(cs.Reqs))}, 0, 10*time.Second) }))
 	cases = append(cases, attritionCase(r, rng.Fork(901), 9002, hutil.ArgInt(args, "nfail", 48), 12))
+	for i := 0; i < hutil.ArgInt(args, "wires", 8) && failing() < 3; i++ {
+		cases = append(cases, wireCase(r, rng.Fork(uint64(950+i)), 9500+i, 24+rng.Intn(24)))
+	}
 	for h := 0; h < hutil.ArgInt(args, "hammers", 2) && failing() < 1; h++ {
 		cases = append(cases, hammerCase(r, rng.Fork(uint64(910+h)), 9010+h, hutil.ArgInt(args, "hammer", 6000), 8))
 	}
